@@ -2404,6 +2404,18 @@ func (f *Frame) applyEffects(fc *FuncContract, env *Env, post *State) {
 	}
 }
 
+// counterMonotone: a ghost array declared `counter` is only ever incremented, so a havoc of
+// it (unverified callee, loop) keeps every entry at least as large as before.
+func (f *Frame) counterMonotone(k string, srt *Sort, cur, nv *Term) {
+	if !f.E.P.Spec.Counters[k] || srt.K != SArray {
+		return
+	}
+	f.E.noteVars(cur)
+	b := Bound{Name: fmt.Sprintf("c!mono%d", f.E.nextQ()), S: srt.Idx}
+	v := Var(b.Name, srt.Idx)
+	f.assume(Forall([]Bound{b}, Ge(Select(nv, v), Select(cur, v))), "event counter "+k+" only grows")
+}
+
 func (e *Enc) effectKeys(fc *FuncContract, m map[string]*Sort) {
 	for _, cl := range fc.Effects {
 		name, _ := splitWord(cl.Text)
@@ -2439,7 +2451,10 @@ func (f *Frame) havocSummary(ms map[string]*Sort, wm map[string]*who, args []*Va
 			continue
 		}
 		if w == nil || w.other || srt.K != SArray || srt.Idx.K != SInt {
-			f.st.Set(k, srt, f.fresh("hv$"+k, srt))
+			cur := f.st.Get(k, srt)
+			nv := f.fresh("hv$"+k, srt)
+			f.st.Set(k, srt, nv)
+			f.counterMonotone(k, srt, cur, nv)
 			continue
 		}
 		var objs []*Term
